@@ -14,7 +14,7 @@ Section ClassFeasible.
 
   Theorem cp_c_feasible n (sp : list (kind * @zspec P)) (E : env (M := mat)) (S : stop_env (M := mat)) i0 fixed n_outer n_inner zero fs m k s p :
     constrained_cp_c dM (op_c12 toR toN other) (zvalidate truthy n sp) msub madd E S n i0 fixed n_outer n_inner zero = Ok fs ->
-    m < length fs -> init_computed i0 = true \/ (In m (modes_list n fixed) /\ 0 < n_outer) ->
+    m < length fs -> init_computed i0 = true \/ (In m (modes_list n fixed) /\ 0 < n_outer /\ 0 < n_inner) ->
     In (k, s) sp -> zrequested truthy n s m p -> feas_c12 toR toN k p (nth m fs dM).
   Proof.
     intros H Hm Hu Hin Hr. apply cp_c_ok in H.
@@ -23,7 +23,7 @@ Section ClassFeasible.
 
   Theorem fit_transform_feasible (self : cp_object (P := P) (M := mat)) (E : env (M := mat)) n zero fs m k p :
     fit_transform truthy dM (op_c12 toR toN other) msub madd self E n zero = Ok fs ->
-    m < length fs -> init_computed (o_init self) = true \/ (In m (modes_list n (o_fixed self)) /\ 0 < o_outer self) ->
+    m < length fs -> init_computed (o_init self) = true \/ (In m (modes_list n (o_fixed self)) /\ 0 < o_outer self /\ 0 < o_inner self) ->
     zrequested truthy n (o_specs self k) m p -> feas_c12 toR toN k p (nth m fs dM).
   Proof.
     unfold fit_transform. intros H Hm Hu Hr.
